@@ -255,19 +255,6 @@ fn scan_names(src: &str, data: &[u8]) -> Result<Vec<String>, String> {
         Ok(v)
     })).unwrap_or_else(|p| Err(format!("panic: {}", p)))
 }
-/// `N of (<boolean>, ..)` means at least N of the items: the order of the items cannot matter.
-/// Returns a finding (JSON) when the implementation's answer depends on it.
-fn order_probe() -> Option<String> {
-    let src = "rule first_true { condition: 1 of (true, uint8(filesize + 5) == 1) }\nrule first_undefined { condition: 1 of (uint8(filesize + 5) == 1, true) }\n";
-    let data = b"abc";
-    match scan_names(src, data) {
-        Ok(v) if v.contains(&"first_true".to_string()) != v.contains(&"first_undefined".to_string()) =>
-            Some(format!("{{\"fingerprint\":\"C02:of-tuple-result-depends-on-item-order\",\"source\":{},\"data_hex\":\"{}\",\"matching\":{:?},\"expected\":\"both rules or neither: the two conditions list the same items\"}}",
-                         json_str(src), hex(data), v)),
-        Ok(_) => None,
-        Err(e) => Some(format!("{{\"fingerprint\":\"C02:order-probe-failed\",\"error\":{}}}", json_str(&e))),
-    }
-}
 /// conditions outside the modelled language whose verdict is known by construction (the
 /// test_proto2 module fills its maps with fixed values whatever the data): a `for k, v in <map>`
 /// loop must not depend on what an earlier `with` left in the slots its variables reuse
@@ -330,8 +317,9 @@ fn corpus() -> Vec<Case> {
         }
     }
     let pct_data: Vec<u8> = (0..7).flat_map(|i| format!("Q{:02}q", i * 3).into_bytes()).collect();
-    // `N of (<boolean>, ..)` with an undefined item in every position (the result depends on the
-    // order: see order_probe), `with` with several declarations of which one is undefined
+    // `N of (<boolean>, ..)` with an undefined item in every position (regression for commit 99b031b0:
+    // the verdict must not depend on the order of the items), `with` with several declarations of
+    // which one is undefined
     let tuple_rules = vec![
         r(0, false, false, vec![], E::OfB(Q::Expr(bx(E::Int(1))), vec![E::Bool(true), E::Cmp(Cmp::Eq, bx(undef()), bx(E::Int(1)))])),
         r(0, false, false, vec![], E::OfB(Q::Expr(bx(E::Int(1))), vec![E::Cmp(Cmp::Eq, bx(undef()), bx(E::Int(1))), E::Bool(true)])),
@@ -496,7 +484,8 @@ pub fn run(args: &[String]) -> i32 {
     if shards.total < n { return 2; }
     let unexpected = expectation_probe();
     if !unexpected.is_empty() { for u in &unexpected { eprintln!("c02: {}", u); } return 2; }
-    let findings: Vec<String> = order_probe().into_iter().collect();
+    // (probes that found something would be listed here; the `of`-tuple order pair is now a corpus case)
+    let findings: Vec<String> = vec![];
     println!("{{\"findings\":[{}],\"evaluations\":{},\"distinct_nontrivial\":{},\"shards\":{},\"distribution\":{},\"samples\":[{}],\"panic_samples\":{}}}",
         findings.join(","), shards.total, distinct.len(), shards.shard_count, stats.json(), samples.join(","), serde_json::to_string(&panics).unwrap());
     0
